@@ -188,6 +188,14 @@ func buildCorpus(caseFiles []string, repo string, tier string, rng *rand.Rand) (
 		{"png", `[{"t":"IHDR","w":9,"h":8,"d":8,"ct":2,"il":0},{"t":"iCCP","name":1,"method":0,"z":"ok6","pid":3,"cross":false},{"t":"anc","size":"pad:1600000"},{"t":"IDAT"},{"t":"IEND"}]`},
 		{"png", `[{"t":"IHDR","w":9,"h":8,"d":8,"ct":2,"il":0},{"t":"anc","size":"pad:1100000"},{"t":"anc","size":"pad:300000"},{"t":"IDAT"},{"t":"IEND"}]`},
 		{"webp", `[{"t":"VP8X","iccf":true,"alpha":false,"exif":false,"xmp":false,"w":700,"h":3},{"t":"ICCP","pid":8,"cross":true},{"t":"VP8","w":5,"h":6,"ws":0,"hs":0}]`},
+		// empty ancillary chunks (length 0: only the CRC follows the header) before the image data
+		{"png", `[{"t":"IHDR","w":9,"h":8,"d":8,"ct":2,"il":0},{"t":"anc","size":"pad:0"},{"t":"iCCP","name":2,"method":0,"z":"ok6","pid":2,"cross":false},{"t":"anc","size":"pad:0"},{"t":"IDAT"},{"t":"IEND"}]`},
+		{"png", `[{"t":"IHDR","w":9,"h":8,"d":8,"ct":2,"il":0},{"t":"anc","size":"pad:0"},{"t":"IDAT"},{"t":"IEND"}]`},
+		// a profile whose compressed form exceeds 64 KiB, followed by more than 64 KiB of ancillary data
+		{"png", `[{"t":"IHDR","w":9,"h":8,"d":8,"ct":2,"il":0},{"t":"iCCP","name":2,"method":0,"z":"ok6","pid":6,"cross":true},{"t":"anc","size":"pad:100000"},{"t":"anc","size":"pad:100000"},{"t":"IDAT"},{"t":"IEND"}]`},
+		// the frame header first, then the profile's chunks in reverse order
+		{"jpeg", `[{"t":"SOF","kind":0,"p":8,"h":33,"w":44,"nc":3},{"t":"ICC","seq":2,"total":2,"pid":1},{"t":"ICC","seq":1,"total":2,"pid":3},{"t":"OTHER","kind":"com"},{"t":"SOS"}]`},
+		{"jpeg", `[{"t":"SOF","kind":2,"p":8,"h":33,"w":44,"nc":1},{"t":"ICC","seq":3,"total":3,"pid":1},{"t":"ICC","seq":1,"total":3,"pid":2},{"t":"ICC","seq":2,"total":3,"pid":1},{"t":"SOS"}]`},
 	} {
 		c := concrete.Case{Fmt: spec.fmt, File: mustFile(spec.file)}
 		b := concrete.Build(c, 0)
@@ -205,6 +213,17 @@ func buildCorpus(caseFiles []string, repo string, tier string, rng *rand.Rand) (
 		segs = append(segs, gen.DQT(0), gen.SOF(0xC0, 8, 21, 34, gen.StdComps(3, 0x22)), gen.DHT(0, 0), gen.SOS(3, gen.EntropyBytes(120, 5)), gen.EOI())
 		d, l := gen.BuildJPEG(segs)
 		items = append(items, item{Name: "jpeg:extra-com", Fmt: "jpeg", Data: d, L: l, Well: true})
+	}
+	{ // inputs whose last structure has no payload at all, at the very end of the stream
+		sof := gen.SOF(0xC0, 8, 21, 34, gen.StdComps(3, 0x22))
+		a, _ := gen.BuildJPEG([]gen.JSeg{gen.SOI(), gen.JFIF(), sof, gen.COM(nil)})
+		b, _ := gen.BuildJPEG([]gen.JSeg{gen.SOI(), sof, gen.APP(2, nil)})
+		c, _ := gen.BuildJPEG([]gen.JSeg{gen.SOI(), gen.COM(nil), sof, gen.EOI()})
+		d, _ := gen.BuildPNG([]gen.PNGChunk{gen.IHDR(5, 6, 8, 2, 0), gen.Chunk("tEXt", nil)})
+		e, _ := gen.BuildWebP([]gen.WChunk{gen.VP8X(0, 55, 66), gen.WC("EXIF", nil)}, -1)
+		for k, dta := range [][]byte{a, b, c, d, e} {
+			items = append(items, item{Name: fmt.Sprintf("junk:ends-with-empty-structure%d", k), Fmt: "junk", Data: dta})
+		}
 	}
 	// junk, polyglots, degenerate inputs
 	sig := gen.PNGSig
